@@ -103,7 +103,7 @@ def flags_to_opts(flags):
     return o
 
 
-def oracle_cli(ctx, tmp, s, enc, flags, use_stdin, use_outfile):
+def oracle_cli(ctx, tmp, s, enc, flags, use_stdin, use_outfile, inplace=False):
     try:
         data = s.encode(enc)
         if data.decode(enc) != s:
@@ -114,6 +114,14 @@ def oracle_cli(ctx, tmp, s, enc, flags, use_stdin, use_outfile):
     outp = os.path.join(tmp, 'out.sql')
     with open(inp, 'wb') as f:
         f.write(data)
+    if inplace:
+        # the output file IS the input file (in-place formatting, also through another path to the same file)
+        use_stdin, use_outfile = False, True
+        outp = inp if inplace == 'same' else os.path.join(tmp, 'link.sql')
+        if inplace != 'same':
+            if os.path.lexists(outp):
+                os.unlink(outp)
+            os.symlink(inp, outp)
     args = [PY, '-m', 'sqlparse'] + (['-'] if use_stdin else [inp]) + flags + ['--encoding', enc] + (['-o', outp] if use_outfile else [])
     env = dict(os.environ, PYTHONIOENCODING=enc, PYTHONPATH=REPO)
     p = subprocess.run(args, input=data if use_stdin else None, stdout=subprocess.PIPE, stderr=subprocess.PIPE, env=env, cwd=tmp, timeout=60)
@@ -124,7 +132,7 @@ def oracle_cli(ctx, tmp, s, enc, flags, use_stdin, use_outfile):
     except Exception as e:
         want = None
     ctx.evaluations += 1
-    ctx.count('cli:%s:%s' % ('stdin' if use_stdin else 'file', 'outfile' if use_outfile else 'stdout'))
+    ctx.count('cli:%s:%s' % ('stdin' if use_stdin else 'file', ('inplace' if inplace else 'outfile') if use_outfile else 'stdout'))
     ctx.nontrivial.add(('cli', s, enc, tuple(flags), use_stdin, use_outfile))
     if want is None:
         return
@@ -147,7 +155,7 @@ def oracle_cli(ctx, tmp, s, enc, flags, use_stdin, use_outfile):
             return
     if got != want:
         ctx.fail('sqlformat output differs from format()', s, observed=got[:300], required=want[:300], flags=flags, encoding=enc,
-                 channel=('stdin' if use_stdin else 'file') + '->' + ('outfile' if use_outfile else 'stdout'))
+                 channel=('stdin' if use_stdin else 'file') + '->' + (('inplace:%s' % inplace if inplace else 'outfile') if use_outfile else 'stdout'))
 
 
 def texts(ctx, n):
@@ -192,7 +200,11 @@ def run(ctx):
         for s in cli_texts[: ctx.n(10, 100)]:
             enc = rng.choice(['utf-8', 'latin-1', 'gbk', 'utf-16', 'cp1252'])
             oracle_cli(ctx, tmp, s, enc, rng.choice(CLI_FLAGS), rng.random() < 0.5, rng.random() < 0.5)
+            if rng.random() < 0.25:
+                oracle_cli(ctx, tmp, s, enc, rng.choice(CLI_FLAGS), False, True, inplace=rng.choice(['same', 'symlink']))
         oracle_cli(ctx, tmp, "select 'é' from t where x=1; select 2", 'latin-1', ['-r', '-k', 'upper'], True, True)
+        oracle_cli(ctx, tmp, "select 'é', b from t where x=1; select 2", 'utf-8', ['-r'], False, True, inplace='same')
+        oracle_cli(ctx, tmp, "select a from t -- é\n; select 2", 'latin-1', ['-k', 'upper'], False, True, inplace='symlink')
     finally:
         shutil.rmtree(tmp, ignore_errors=True)
     ctx.samples.append('forms: ' + ', '.join(k for k in ctx.dist if k.startswith('form:')))
@@ -215,7 +227,8 @@ def replay(ctx, payload):
         tmp = tempfile.mkdtemp(prefix='verif-c19-')
         try:
             ch = ex.get('channel', 'file->stdout')
-            oracle_cli(ctx, tmp, payload['input'], ex['encoding'], ex['flags'], ch.startswith('stdin'), ch.endswith('outfile'))
+            oracle_cli(ctx, tmp, payload['input'], ex['encoding'], ex['flags'], ch.startswith('stdin'), ch.endswith('outfile') or 'inplace' in ch,
+                       inplace=(ch.split('inplace:')[1] if 'inplace:' in ch else False))
         finally:
             shutil.rmtree(tmp, ignore_errors=True)
     else:
